@@ -473,6 +473,11 @@ def r6(ctx):
     t = ctx.fibody(name="to_active", self_adt="barter_execution::order::Order", trait="")
     res = {}
     for g, term, bi in t.expanded_cases(0):
+        # (`?` read through: `self.state.as_active()?` and `let Active(s) = &self.state else { return None }` are the same table)
+        g = common.untry_guard(t, g)
+        term = common.drop_never(common.untry(t, term))
+        if "<never>" in render(term):
+            continue        # a case that reads the payload of a variant the value does not have: infeasible
         for conj in g:
             for a in conj:
                 if a[0] == "is" and render(a[1]) == "self.state":
